@@ -17,6 +17,7 @@ RULE = ("each generated module is compiled under the baseline options and under 
         "representation an option changes (INTEGER beyond 32 bits or REAL for wide types, a CHOICE for indirect choice, "
         "nested anonymous types for compound names); distinct by (type, value, option set)")
 BASE = ("-fcompound-names",)
+K_WIDEPER = "wide-types.per-integer-beyond-long"
 OPTS = ["-fwide-types", "-findirect-choice", "-fno-include-deps", "-fincludes-quoted", "-fno-constraints", "-no-gen-OER",
         "-no-gen-PER"]
 SYN = ["der", "uper", "oer", "xer", "cxer"]
@@ -73,6 +74,10 @@ def worker(mod_json, wseed, nvalues, subsets):
 
             def body(v, tname=tname, t=t, feats=feats, ttext=ttext):
                 refder = ref_ber.encode(mod, t, v)
+                if len(refder) > 8000:
+                    # (option sets) x (five encoders + chain + cross decoding) per value: large values cost seconds each
+                    acc.excluded["value too large for the option-set comparison (> 8000 octets of DER)"] += 1
+                    return
                 vfeats = pipeline.value_features(mod, t, v)
                 base_reply = None
                 replay = {"module": mod.subset([tname]).to_json(), "type": tname, "value": val_to_json(v)}
@@ -98,6 +103,9 @@ def worker(mod_json, wseed, nvalues, subsets):
                         acc.case(h(ttext, val_to_json(v)) if touches and not pipeline.trivial_value(v) else None, list(feats))
                         continue
                     acc.extra["build_comparisons"] += 1
+                    # INTEGER values beyond the C long range under -fwide-types: two recorded findings (PER through long,
+                    # XER hex dump) make UPER and XER incomparable with the native build
+                    wide_beyond = "-fwide-types" in fs and "int.beyond-long" in vfeats and not getattr(acc, "probe", False)
                     for s in SYN:
                         a, b = base_reply.get(s), r.get(s)
                         if a in ("nocodec", None) or b in ("nocodec", None):
@@ -108,12 +116,19 @@ def worker(mod_json, wseed, nvalues, subsets):
                                 KNOWN.is_known(PID, "fno-constraints.per-alphabet-map"):
                             acc.excluded["known:fno-constraints.per-alphabet-map"] += 1
                             continue
+                        if s == "uper" and wide_beyond and KNOWN.is_known(PID, K_WIDEPER):
+                            acc.excluded["known:" + K_WIDEPER] += 1
+                            continue
+                        if s in ("xer", "cxer") and wide_beyond and KNOWN.is_known(PID, "int.beyond-long.xer"):
+                            acc.excluded["known:int.beyond-long.xer"] += 1
+                            continue
                         if a != b:
                             raise Fail(h(ttext, "bytes", s, fs), "%s ::= %s\nvalue %s\n%s differs between option sets:\n  %s: %s\n  %s: %s" % (
                                 tname, ttext, val_repr(v), s, BASE, str(a)[:300], fs, str(b)[:300]), dict(replay, flags=list(fs)))
                     # transcoding chain: what a decoder built with these options leaves in memory must encode to the
                     # same bytes as in the baseline build (DER -> UPER -> OER -> XER -> UPER)
                     if "-no-gen-PER" not in fs and "-no-gen-OER" not in fs and not (
+                            wide_beyond and KNOWN.is_known(PID, K_WIDEPER)) and not (
                             "-fno-constraints" in fs and ("cons.from" in feats or "NumericString" in feats)):
                         if "chain" not in base_reply:
                             base_reply["chain"] = builds[0][2].cmd("rt %s %s uper,oer,xer,uper" % (tname, drv.hexs(refder)))
@@ -138,6 +153,9 @@ def worker(mod_json, wseed, nvalues, subsets):
                         if s == "uper" and "-fno-constraints" in fs and ("cons.from" in feats or "NumericString" in feats) and \
                                 KNOWN.is_known(PID, "fno-constraints.per-alphabet-map"):
                             continue
+                        if wide_beyond and ((s == "uper" and KNOWN.is_known(PID, K_WIDEPER))
+                                            or (s == "xer" and KNOWN.is_known(PID, "int.beyond-long.xer"))):
+                            continue
                         try:
                             d = sess.cmd("dec %s %s %s" % (tname, dsyn, a))
                         except drv.DriverCrash as e:
@@ -151,7 +169,17 @@ def worker(mod_json, wseed, nvalues, subsets):
                 if acc.evaluations % 89 == 1:
                     acc.sample({"type": "%s ::= %s" % (tname, ttext[:200]), "value": val_repr(v, 100),
                                 "option_sets": [" ".join(fs) for fs, _, _ in builds]})
-            f = pipeline.run_given(gen.values(mod, t, cfg), body, nvalues, wseed * 1000 + ti)
+            f = None
+            if mod.name.startswith("Cat"):
+                for bv in gen.boundary_values(mod, t):
+                    acc.extra["catalogue_boundary_cases"] += 1
+                    try:
+                        body(bv)
+                    except Fail as e:
+                        f = e
+                        break
+            if f is None:
+                f = pipeline.run_given(gen.values(mod, t, cfg), body, nvalues, wseed * 1000 + ti)
             if f is not None and f.key != "flaky":
                 acc.violation(f.key, f.summary, f.replay)
                 if len(acc.violations) >= 3:
@@ -214,7 +242,7 @@ def main(argv):
     nv = a.values or chk.pick(30, 100)
     build.warm()
     runner.regression_and_probes(chk, replay_case)
-    mods = pipeline.draw_modules(chk.seed, nm, gen.Cfg(max_types=16))
+    mods = [m for m in gen.catalogue() if m.name == "CatOpt"] + pipeline.draw_modules(chk.seed, nm, gen.Cfg(max_types=16))
     from hypothesis import given, settings, seed as hseed, HealthCheck, Phase
     subsets = []
 
